@@ -10,6 +10,32 @@ LEVEL_NOTE = ("Trusted: Coq 8.16.1 kernel; no axioms (Print Assumptions of each 
               "the code by differential execution on every run, which samples and does not prove. ")
 
 CLAIMS = {
+    "C01": dict(
+        technique="Coq proof over the handler model (per-target delivery = duplicate-free audience list minus the sender, via Forall2/NoDup) + differential traces and an audience oracle on the implementation's own state",
+        text="Theorems (props/C01.v) about the Gallina model of process_privmsg_notice, for ALL shared states, connections, target lists and texts: an accepted channel target queues "
+             "exactly one copy for each member of the audience other than the sender - the queued lines are in one-to-one correspondence (Forall2) with a duplicate-free list whose "
+             "elements are exactly audience minus sender - each to the connection owning that nick; a nick target goes to exactly the owner; the audience of a status-prefixed target is the "
+             "union of the named rank lists; duplicate targets are handled once; the line is :source VERB target :text verbatim; state and connection are unchanged. Statements are "
+             "conditional on the handler returning Ok (absence of Panic is C05's theorem). Tie: 32 prefix subsets x rank combinations x flags sweep and seeded random histories, impl vs "
+             "model per step, plus the audience rule recomputed from the implementation's own state dump.",
+        design_ref="5 (C01)",
+        note="History quantification is discharged by the theorems being about every shared state; which states are reachable matters only for the C05 no-Panic hypothesis."),
+    "C03": dict(
+        technique="Coq proof over the dispatch model (gate, state-independence of gated replies, characterisation of authenticate) + exhaustive verb x registration-progress x configuration sweep against the real server",
+        text="Theorems (props/C03.v), for ALL shared states, connection states, lines and configurations, with password verification a parameter: a command outside CAP/AUTHENTICATE/PASS/"
+             "NICK/USER/QUIT from an unregistered connection yields exactly 451 and leaves everything unchanged (C03_gate); its answer is the same in any two worlds (C03_no_reveal); a line "
+             "turns the connection registered only if negotiation is closed, NICK and USER are set, the configured user mask globs the source, the applicable password verifies and the nick "
+             "is free, and then exactly one user keyed by that nick and owned by that connection is inserted (C03_registration_only_if / _if); a failing password at that moment gives 464, "
+             "closes, creates nothing (C03_bad_password_closes); any other line from an unregistered connection is inert (C03_refused_is_inert).",
+        design_ref="5 (C03)",
+        note="argon2 is outside the model: verify is a parameter; the driver instantiates it with hashes produced by the real argon2_hash_password."),
+    "C10": dict(
+        technique="Coq proof (can_send characterised by a boolean-reflection lemma over glob-based ban semantics; NOTICE silence by induction over the target fold) + flag x ban x rank sweep against the real server with a speaking-rule oracle",
+        text="Theorems (props/C10.v), for ALL channels, senders and sources: can_send holds iff (member or neither +n nor +s) and not (some ban mask globs the source and no exception does) and "
+             "(not +m or voice-or-higher), with mask matching proved equal to glob (C14); a channel target is delivered to the C01 audience iff can_send, otherwise nobody receives it and a "
+             "PRIVMSG sender gets exactly one 404 (NOTICE: nothing); every line queued by a NOTICE command is the relayed NOTICE itself - no numeric, for all target lists (C10_notice_silent); "
+             "PRIVMSG to an away user adds exactly the 301 with the away text, NOTICE does not.",
+        design_ref="5 (C10)"),
     "C14": dict(
         technique="Coq proof (greedy segment matcher = textbook glob, by induction over the segment list) + exhaustive/random differential run of the model and of the extracted glob spec against the real match_wildcard",
         text="Theorems C14_glob / C14_glob_relation: for ALL patterns and texts the model of match_wildcard equals the textbook glob function (and the "
